@@ -2,6 +2,7 @@
 from __future__ import annotations
 
 import ast
+from typing import Optional
 
 from ..astutil import call_name, guards
 from ..frontend import norm, walk_local
@@ -26,33 +27,57 @@ MUTATE = "geneticengine.representations.tree.treebased:mutate"
 
 
 def rule_r4(ctx: Ctx) -> None:
+    """Tree variation re-creates subtrees under the stored context of the node it replaces: mutate is interpreted
+    (sa/treemodel.py) on a node selected for replacement that carries a stored synthesis context at depth 5 - every
+    create_node call must receive that very context; a node without a stored context may be re-created under a fresh one."""
+    from ..modelinterp import Budget, Obj, Sym, TypeV, UNKNOWN
+    from ..treemodel import TreeModel
     mu = ctx.fn(MUTATE)
+    NODE = TypeV("class", "N")
     n = 0
-    for c in walk_local(mu.node):
-        if isinstance(c, ast.Call) and isinstance(c.func, ast.Name) and c.func.id == "create_node" and len(c.args) >= 3:
-            n += 1
-            cexpr = c.args[2]
-            gs = guards(c, stop=mu.node)
-            has_ctx = None
-            for t, pol in gs:
-                neg = False
-                core = t
-                while isinstance(core, ast.UnaryOp) and isinstance(core.op, ast.Not):
-                    neg, core = not neg, core.operand
-                if isinstance(core, ast.Call) and call_name(core) == "hasattr" and len(core.args) == 2 \
-                        and isinstance(core.args[1], ast.Constant) and core.args[1].value == "gengy_synthesis_context":
-                    has_ctx = (pol != neg)
-            stored = isinstance(cexpr, ast.Attribute) and cexpr.attr == "gengy_synthesis_context"
-            fresh = isinstance(cexpr, ast.Call) and call_name(cexpr) == "LocalSynthesisContext"
-            if has_ctx is False:
-                ok = fresh or stored
-                why = ""
-            else:
-                ok = stored
-                why = "" if ok else (f"a node that has a stored context is re-created under '{norm(cexpr)[:50]}' instead of its stored "
-                                     f"context: the new subtree is budgeted as if it started at depth 0 and can exceed the limit")
-            ctx.ob("C03.R4", mu, c, f"re-creation uses {'the stored context' if stored else norm(cexpr)[:40]}", ok, why)
-    ctx.floor("C03.R4", n, 2, "create_node calls in tree variation")
+    for has_ctx in (True, False):
+        model = TreeModel(ctx, fields={NODE: [("f1", TypeV("class", "T1"))]}, ints={"mutate:random_int": 0},
+                          hasattrs={"node": {"gengy_synthesis_context": has_ctx, "synthesis_context": False}, "__typeof__": {"node": NODE}},
+                          extra_calls={"has_annotated_mutation": lambda *a, **k: False})
+        it = model.interp()
+        p = mu.params
+        stored = Obj("LocalSynthesisContext", {"depth": 5, "nodes": 7, "expansions": 3, "dependent_values": {}})
+        env = {p[0]: Obj("GlobalSynthesisContext", {"random": Sym("random"), "grammar": Sym("grammar"), "decider": Sym("decider")}),
+               p[1]: Sym("node"), p[2]: NODE, f"{p[1]}.gengy_weighted_nodes": 3, f"{p[1]}.gengy_init_values": [Sym("v1")]}
+        if has_ctx:
+            env[f"{p[1]}.gengy_synthesis_context"] = stored
+        for extra in p[3:]:
+            env[extra] = None
+        try:
+            runs = it.run(mu, env)
+        except Budget:
+            ctx.ob("C03.R4", mu, mu.node, f"re-creation context (node {'with' if has_ctx else 'without'} a stored context)", None, "too many interpretations")
+            continue
+        verdict: Optional[bool] = True
+        why = ""
+        node = mu.node
+        seen = 0
+        for trace, rv, notes in runs:
+            if any(e.kind == "raise" for e in trace):
+                continue
+            for e in [e for e in trace if e.kind == "call" and e.name == "create_node"]:
+                seen += 1
+                n += 1
+                c_ = e.kwargs.get("context")
+                if has_ctx:
+                    same = isinstance(c_, Obj) and c_.fields.get("depth") == 5 and c_.fields.get("nodes") == 7
+                    if not same:
+                        verdict = False if isinstance(c_, Obj) else None
+                        node = e.node
+                        why = (f"a node that has a stored context (depth 5) is re-created under {c_!r} instead of its stored context: the "
+                               f"new subtree is budgeted as if it started at another depth and can exceed the limit")
+                elif not isinstance(c_, Obj):
+                    verdict, node, why = None, e.node, f"re-creation context {c_!r} not followed"
+        if seen == 0:
+            verdict, why = None, "no re-creation (create_node) call is reached in the model"
+        ctx.ob("C03.R4", mu, node, f"re-creation of a node {'with a stored context uses that context' if has_ctx else 'without a stored context uses a fresh context'}",
+               verdict, why)
+    ctx.floor("C03.R4", n, 2, "create_node calls reached in interpreted tree variation")
 
 
 def run(ctx: Ctx) -> None:
